@@ -12,11 +12,17 @@ differential correspondence).  From the leaves up: record, record loop, flowset,
 Preconditions (the Boolean predicates `Wire.V9.wf…`, all decidable; see `Spec/Wire.lean`):
 * every specifier of the template is in the information model (`lookupElem … = some …`), v9 has no
   enterprise numbers (`ent = 0`), each value has exactly the announced length;
-* **every data record is longer than 4 octets** — known finding K2: the record loop continues only
-  while more than 4 octets are left, so a trailing record of ≤ 4 octets is taken for padding and
-  dropped (`k2_counterexample`);
-* at most 4 octets of padding (any content), flowset length < 65536, flowsets non-empty, a template
-  record has at least one field (a 4-octet template record would be taken for padding);
+* every data record has a positive length (`0 < recLen t`; a template of zero-length fields describes
+  no octets, the decoder reports `zero-length data record`, F2) — the former "longer than 4 octets"
+  (finding K2) is gone since the padding repair: `k2_repaired`;
+* padding (any content) of a data flowset **shorter than the template's record** (`wfDataPad`: the only
+  rule that can tell padding from a record; 4-octet alignment gives 0..3 octets, 8-octet alignment up to
+  7) — the former `pad ≤ 4` was a hypothesis forced by the decoder's constant, under which 5..7 octets of
+  padding after records of 8 or more octets lost the whole packet (F16, `k3_repaired`); padding of a
+  template flowset at most 4 octets (`wfTplPad`: RFC 3954 gives 0..3; the unchanged template loop stops
+  when at most 4 octets are left);
+* flowset length < 65536, flowsets non-empty, a template record has at least one field (a 4-octet
+  template record would be taken for padding);
 * a data flowset's template is what `Cache.lookup` returns for (exporter address, flowset id) in the
   cache *as updated by the preceding flowsets of the same packet* — no assumption about the hash
   other than `lookup (insert c a id t) a id = some t` (`announced_template_in_force`).
@@ -35,9 +41,9 @@ theorem record_roundtrip (t : Template) (vals : List Bytes) (rest : Bytes) (c : 
 
 /-- **C06 level 2a (record loop)**: over `records ++ pad ++ rest`, the flowset header announcing exactly
 `records ++ pad`, the loop yields all records in order, stops in front of the padding, no error. -/
-theorem recordLoop_roundtrip (ctx : V9.Ctx) (hsid : 255 < ctx.setId) (hbig : 4 < Wire.V9.recLen ctx.tr)
+theorem recordLoop_roundtrip (ctx : V9.Ctx) (hsid : 255 < ctx.setId) (hbig : 0 < Wire.V9.recLen ctx.tr)
     (records : List (List Bytes)) (pad rest : Bytes) (fuel : Nat) (st : V9.St)
-    (hrec : ∀ x ∈ records, Wire.V9.wfRecord ctx.tr x = true) (hpad : pad.length ≤ 4)
+    (hrec : ∀ x ∈ records, Wire.V9.wfRecord ctx.tr x = true) (hpad : pad.length < Wire.V9.recLen ctx.tr)
     (hrem : st.r.rem = V9.body ctx.tr records ++ (pad ++ rest))
     (hleft : V9.leftInt ctx st.r = (((V9.body ctx.tr records).length + pad.length : Nat) : Int))
     (hfuel : records.length < fuel) :
@@ -109,7 +115,10 @@ example : (Wire.V9.expected exAddr [] exMsg).1 =
     [[⟨8, 0, .ip [10,0,0,1]⟩, ⟨12, 0, .ip [10,0,0,2]⟩], [⟨8, 0, .ip [10,0,0,3]⟩, ⟨12, 0, .ip [10,0,0,4]⟩]] := by
   rfl
 
-/-! ## Known finding K2: records of ≤ 4 octets at the end of a flowset are dropped -/
+/-! ## Repaired findings: K2 (records of ≤ 4 octets at the end of a flowset were dropped) and F16 (5..7
+octets of flowset padding were read as a record and the whole packet was lost).  Both former
+counterexample inputs are now well-formed packets, and the model — evaluated by the kernel, independently of
+`packet_roundtrip` — decodes them completely. -/
 
 def k2Tpl : Template := ⟨256, 1, 0, [], [⟨8, 4, 0⟩]⟩
 /-- template with one 4-octet field, then a data flowset with three records, no padding -/
@@ -118,15 +127,43 @@ def k2Msg : Wire.V9.Msg :=
     sets := [.tpl [k2Tpl] [], .data k2Tpl [[[10,0,0,1]], [[10,0,0,2]], [[10,0,0,3]]] []] }
 
 set_option maxRecDepth 100000 in
-/-- **K2**: the packet violates only "record longer than 4 octets"; three records were encoded, the
-decoder returns the first two and no error: the hypothesis `4 < recLen t` of the round-trip theorems
-cannot be dropped. -/
-theorem k2_counterexample :
+/-- **K2 repaired**: three records of 4 octets were encoded; before the padding repair the decoder
+returned the first two and no error (the former `k2_counterexample`); now the packet is well-formed and
+all three come back. -/
+theorem k2_repaired :
+    Wire.V9.wfMsg exAddr [] k2Msg = true ∧
     (Wire.V9.expected exAddr [] k2Msg).1.length = 3 ∧
     (V9.decode [] exAddr (Wire.V9.encodeMsg k2Msg)).1 =
-      .ok (Wire.V9.expectedHdr k2Msg, (Wire.V9.expected exAddr [] k2Msg).1.take 2, []) ∧
+      .ok (Wire.V9.expectedHdr k2Msg, (Wire.V9.expected exAddr [] k2Msg).1, []) ∧
     Wire.V9.recLen k2Tpl = 4 := by
-  refine ⟨by rfl, by rfl, by rfl⟩
+  refine ⟨by decide, by rfl, by rfl, by rfl⟩
+
+/-- template with two 4-octet fields, then three data flowsets of one 8-octet record followed by 5, 6 and 7
+zero octets of padding (shorter than the record: 8-octet alignment) -/
+def k3Msg : Wire.V9.Msg :=
+  { count := 4, upTime := 1000, secs := 1700000000, seq := 9, srcId := 1,
+    sets := [.tpl [exTpl] [],
+             .data exTpl [[[10,0,0,1],[10,0,0,2]]] [0,0,0,0,0],
+             .data exTpl [[[10,0,0,3],[10,0,0,4]]] [0,0,0,0,0,0],
+             .data exTpl [[[10,0,0,5],[10,0,0,6]]] [0,0,0,0,0,0,0]] }
+
+set_option maxRecDepth 100000 in
+/-- **F16 repaired (long padding)**: before the repair each of the three data flowsets alone made `Decode`
+return `(nil, "can not read the data")` — the padding, longer than 4 octets, was read as a record; the old
+`wfSetLen` excluded such packets (`pad ≤ 4`).  Now they are well-formed and decode completely. -/
+theorem k3_repaired :
+    Wire.V9.wfMsg exAddr [] k3Msg = true ∧
+    (V9.decode [] exAddr (Wire.V9.encodeMsg k3Msg)).1 =
+      .ok (Wire.V9.expectedHdr k3Msg,
+           [[⟨8, 0, .ip [10,0,0,1]⟩, ⟨12, 0, .ip [10,0,0,2]⟩], [⟨8, 0, .ip [10,0,0,3]⟩, ⟨12, 0, .ip [10,0,0,4]⟩],
+            [⟨8, 0, .ip [10,0,0,5]⟩, ⟨12, 0, .ip [10,0,0,6]⟩]], []) := by
+  refine ⟨by decide, by rfl⟩
+
+set_option maxRecDepth 100000 in
+/-- padding as long as a record is not padding: the bound of `wfDataPad` is sharp (8 octets after 8-octet
+records are a fourth record) -/
+example : Wire.V9.wfSet exAddr (Wire.V9.applySet exAddr ([], []) (.tpl [exTpl] [])).2
+    (.data exTpl [[[10,0,0,1],[10,0,0,2]]] [0,0,0,0,0,0,0,0]) = false := by decide
 
 /-! ## Tie: the fixed-layout readers of the model read the layouts REGENERATED from the decoder source
 (`Gen.Layouts.*`, re-extracted from the `unmarshal` chains on every run; proofs in `Proofs/HeaderLayouts.lean`) -/
